@@ -89,6 +89,8 @@ async fn episode(p: &EpParams, mt: bool) -> EpReport {
     let with_create = rng.chance(1, 3);
     let n_publish = rng.range(0, 3);
     let topic_heavy = rng.chance(1, 4);
+    // one burst in six: the acks carry more than a thousand IDs each (mostly unknown ones)
+    let long_acks = rng.chance(1, 6);
 
     let mut kinds: Vec<&'static str> = Vec::new();
     let mut tasks: Vec<(&'static str, u64, tokio::task::JoinHandle<()>)> = Vec::new();
@@ -130,7 +132,11 @@ async fn episode(p: &EpParams, mt: bool) -> EpReport {
         let k = if topic_heavy {
             *rng.pick(&["ListTopicSubs", "ListTopicSubs", "Publish1", "GetSub", "Ack"])
         } else {
-            *rng.pick(&["Ack", "Modify", "PullRI", "GetSub", "Ack", "Modify", "PullRI", "Pull", "ListTopicSubs"])
+            if long_acks {
+                *rng.pick(&["Ack", "Ack", "Ack", "Modify", "PullRI", "GetSub", "Ack", "Ack", "ListTopicSubs"])
+            } else {
+                *rng.pick(&["Ack", "Modify", "PullRI", "GetSub", "Ack", "Modify", "PullRI", "Pull", "ListTopicSubs"])
+            }
         };
         order.push(k);
     }
@@ -146,7 +152,10 @@ async fn episode(p: &EpParams, mt: bool) -> EpReport {
         // unrelated leases on another subscription).
         let sub = if matches!(*kind, "Ack" | "Modify" | "DeleteSub" | "DeleteSubAbandoned") || rng.chance(5, 6) { target.clone() } else { rng.pick(&subs).clone() };
         let t2 = t.clone();
-        let ids = lease_ids.clone();
+        let mut ids = lease_ids.clone();
+        if long_acks && *kind == "Ack" {
+            ids.extend((0..rng.range(1001, 2500)).map(|k| format!("{}", 500_000 + k)));
+        }
         let secs = *rng.pick(&[0, 15, 600]);
         let tag = format!("b{}", i);
         let kind = *kind;
